@@ -141,6 +141,26 @@ def scripted(case):
                         if f(o2) != got[0] or [f(x) for x in e2] != got[1:]:
                             issues.append(C.issue("C09:auto:return_results", "limits differ with return_results on/off", **ctx))
                     dig.append([round(x, 5) for x in got])
+                # ---- hypothesis-test options are forwarded in both scan modes: the caller holds the nuisance constant at 0.37;
+                #      every fit the optimiser is asked for must carry that fixed value (read from the optimiser's call log)
+                if ts == "qtilde" and dist == "normal":
+                    for mode in ("auto", "grid"):
+                        pdf = seams.FakePdf(npars=2, poi_bounds=(0, 10))
+                        opt.calls.clear()
+                        kwf = dict(kw, init_pars=[1.0, 0.37], fixed_params=[False, True])
+                        try:
+                            if mode == "auto":
+                                upper_limits.upper_limit([1.0], pdf, level=level, **kwf)
+                            else:
+                                upper_limits.upper_limit([1.0], pdf, scan=np.linspace(0.0, min(10.0, max(roots) * 1.6 + 0.5), 11), level=level, **kwf)
+                        except Exception as e:
+                            issues.append(C.issue(f"C09:forward:{mode}:{type(e).__name__}", f"upper_limit with fixed_params raised {e}"[:200], **ctx))
+                            continue
+                        ncmp += 1
+                        missing = [c_ for c_ in opt.calls if (1, 0.37) not in [tuple(x) for x in c_["fixed"]]]
+                        if missing or not opt.calls:
+                            issues.append(C.issue(f"C09:forward:fixed_params:{mode}", f"{len(missing)} of {len(opt.calls)} fits of the {mode} scan were requested without the caller's "
+                                                  f"fixed nuisance (fixed_params/init_pars not forwarded)", **ctx))
                 # ---- the root finder's documented tolerances (direct toms748_scan calls)
                 for rtol in (1e-4, 1e-2):
                     pdf = seams.FakePdf(npars=2, poi_bounds=(0, 10))
